@@ -492,6 +492,6 @@ func TestTwin(t *testing.T) {
 			sort.Strings(out)
 			return out
 		},
-		Quick: 4000, Thorough: 150000,
+		Quick: 4000, Thorough: 70000,
 	})
 }
